@@ -532,11 +532,21 @@ class Body:
                 # value is a reference to rv.pl : report the referenced place
                 return self._origin_place(rv["pl"], stop_named, depth + 1)
             return ("place", pl)
-        if k == "cast" and not pl["p"]:
+        if k == "cast" and all(e["k"] == "deref" for e in pl["p"]):
             sp = op_place(rv["op"])
             if sp is not None and rv.get("kind", "").startswith(("PointerCoercion", "Transmute", "PtrToPtr")):
-                return self._origin_place(sp, stop_named, depth + 1)
-            return ("rv", rv)
+                # Box<T> deref is lowered to a transmute of box.0.pointer: `*(b.0.pointer as *const T)` is `*b`
+                projs = list(sp["p"])
+                stripped = False
+                while projs and projs[-1]["k"] == "field" and projs[-1].get("adt") in (
+                        "alloc::boxed::Box", "core::ptr::unique::Unique", "core::ptr::non_null::NonNull"):
+                    projs.pop()
+                    stripped = True
+                base = {"l": sp["l"], "p": projs, "t": sp.get("t", "?")}
+                return self._origin_place(compose(base, pl["p"]), stop_named, depth + 1)
+            if not pl["p"]:
+                return ("rv", rv)
+            return ("place", pl)
         if pl["p"]:
             return ("place", pl)
         return ("rv", rv)
